@@ -997,6 +997,31 @@ def struct_fields(repo):
     return out
 
 
+# ------------------------------------------------------------------------------------------------ parameter kinds
+HANDLE_NAMES = {"fn", "file_number", "cgio_num", "cgio_num_inp", "cgio_num_out"}
+INDEX_NAMES = {"B", "Z", "S", "P", "Ii", "BC", "F", "C", "G", "A", "D", "N", "Dset", "DS", "R", "J", "I", "index", "Index", "descr_no",
+               "IntegralDataIndex", "ArrayNumber", "Fam"}
+
+
+def param_kind(pn, pt):
+    """what an entry point must validate about a parameter, from its type and name: H(andle) I(ndex) N(ame) E(num) O(ther)"""
+    t = pt.replace("const ", "").strip()
+    if t == "int":
+        if pn in HANDLE_NAMES:
+            return "H"
+        if pn in INDEX_NAMES:
+            return "I"
+        return "O"
+    if t == "char *" and "const" in pt:
+        l = pn.lower()
+        if l.endswith("name") and l not in ("filename", "file_name", "cadname", "regionname") and "file" not in l:
+            return "N"
+        return "O"
+    if re.search(r"\benum\b|_t\b", t) and "*" not in t and t not in ("cgsize_t", "cglong_t", "size_t"):
+        return "E"
+    return "O"
+
+
 # ------------------------------------------------------------------------------------------------ analysis
 def src_hash(repo):
     h = hashlib.sha1(VERSION.encode())
@@ -1154,7 +1179,8 @@ def coq_gen(d):
         seen.add(f["name"])
         a = api.get(f["name"])
         vis = ("(Api Doc%s)" % a["doc"]) if a and not f["static"] else "Internal"
-        rows.append(" mkVRow %d %s %s %d\n%s" % (fid[f["name"]], cs(f["name"]), vis, len(f["params"]), stms(f["body"], f["name"], 0)))
+        kinds = "[" + ";".join("P" + param_kind(pn, pt) for pn, pt in f["params"]) + "]"
+        rows.append(" mkVRow %d %s %s %s\n%s" % (fid[f["name"]], cs(f["name"]), vis, kinds, stms(f["body"], f["name"], 0)))
     out.append("Definition table : list vrow := [")
     out.append(";\n".join(rows))
     out.append("].")
